@@ -331,6 +331,20 @@ func registerKeystoreOps() {
 	core.Register("C02.ks.current", func(a []string) string {
 		return okOrErr(store(a[0]).current(a[1], core.UnHex(a[2])))
 	})
+	// keys.view handle what id n (owner key)×n : all keys of `id` of one class as the real store lists them, newest first
+	core.Register("C02.keys.view", func(a []string) string {
+		v := store(a[0]).view(core.UnHex(a[2]))
+		var ks [][]byte
+		switch a[1] {
+		case "private":
+			ks = v.kv.Privs
+		case "sym":
+			ks = v.kv.Syms
+		default:
+			panic("harness: keys.view: unknown class " + a[1])
+		}
+		return env.List(ks)
+	})
 	// ctx.v1.open master purpose id blob : SCellKeyEncryptor.Decrypt under the key context of (purpose, id)
 	core.Register("C02.ctx.v1.open", func(a []string) string {
 		enc, err := keystore.NewSCellKeyEncryptor(core.UnHex(a[0]))
